@@ -576,7 +576,7 @@ async def sftp_framing_run(rng, n, root):
 BLOCK = 256 * 1024
 
 
-async def copy_observe(root, same, sz, roff, length, woff, cap):
+async def copy_observe(root, same, sz, roff, length, woff, cap, how=None):
     """-> (read calls, bytes written, capped)"""
     import asyncssh
 
@@ -595,23 +595,51 @@ async def copy_observe(root, same, sz, roff, length, woff, cap):
         def write(self, file_obj, offset, data):
             Counting.written += len(data)
             return super().write(file_obj, offset, data)
+    for name in os.listdir(root):
+        q = os.path.join(root, name)
+        if os.path.isdir(q) and not os.path.islink(q):
+            shutil.rmtree(q, ignore_errors=True)
+        else:
+            os.remove(q)
     src = os.path.join(root, 'src')
-    dst = src if same else os.path.join(root, 'dst')
     with open(src, 'wb') as f:
         f.write(b'\xa5' * sz)
-    if not same and os.path.exists(dst):
-        os.remove(dst)
+    how = how or ('two_opens' if same else 'distinct')
+    p1, p2, rw = b'/src', b'/dst', 0x01 | 0x02
+    if how == 'hardlink':
+        os.link(src, os.path.join(root, 'dst'))
+    elif how == 'symlink':
+        os.symlink('src', os.path.join(root, 'dst'))
+    elif how in ('two_opens', 'same_handle', 'renamed_after_open', 'unlinked_after_open', 'replaced_after_open'):
+        p2 = b'/src'
+    elif how == 'equal_names_other_dir':
+        os.mkdir(os.path.join(root, 'a'))
+        os.mkdir(os.path.join(root, 'b'))
+        os.rename(src, os.path.join(root, 'a', 'f'))
+        with open(os.path.join(root, 'b', 'f'), 'wb') as f:
+            f.write(b'\x5a' * sz)
+        p1, p2 = b'/a/f', b'/b/f'
     sess = SftpSession(Counting(StubChan(), chroot=root))
     if not await sess.init():
         raise RuntimeError('sftp bring-up: no FXP_VERSION')
-    # v3 open: path, pflags, attrs(flags=0)
-    fr = await sess.send(frame(b'\x03' + u32(1) + sstr(b'/src') + u32(0x01 | (0x02 if same else 0)) + u32(0)))
-    h1 = fr[0][9:9 + struct.unpack('>I', fr[0][5:9])[0]] if fr and fr[0][0] == 102 else None
-    fr = await sess.send(frame(b'\x03' + u32(2) + sstr(b'/src' if same else b'/dst') +
-                               u32((0x01 | 0x02) if same else (0x02 | 0x08)) + u32(0)))
-    h2 = fr[0][9:9 + struct.unpack('>I', fr[0][5:9])[0]] if fr and fr[0][0] == 102 else None
+
+    async def sopen(rid, path, flags):
+        # v3 open: path, pflags, attrs(flags=0)
+        fr = await sess.send(frame(b'\x03' + u32(rid) + sstr(path) + u32(flags) + u32(0)))
+        return fr[0][9:9 + struct.unpack('>I', fr[0][5:9])[0]] if fr and fr[0][0] == 102 else None
+    h1 = await sopen(1, p1, rw if same else 0x01)
+    if how == 'replaced_after_open':
+        # the name now belongs to ANOTHER file of the same size: not the same file
+        await sess.send(frame(b'\x12' + u32(10) + sstr(b'/src') + sstr(b'/old')))
+        with open(src, 'wb') as f:
+            f.write(b'\x5a' * sz)
+    h2 = h1 if how == 'same_handle' else await sopen(2, p2, rw if how != 'distinct' else (0x02 | 0x08))
+    if how == 'renamed_after_open':
+        await sess.send(frame(b'\x12' + u32(10) + sstr(b'/src') + sstr(b'/moved')))
+    elif how == 'unlinked_after_open':
+        await sess.send(frame(b'\x0d' + u32(10) + sstr(b'/src')))
     if h1 is None or h2 is None:
-        raise RuntimeError('sftp bring-up: open failed')
+        raise RuntimeError('sftp bring-up: open failed (%s)' % how)
     req = b'\xc8' + u32(3) + sstr(b'copy-data') + sstr(h1) + u64(roff) + u64(length) + sstr(h2) + u64(woff)
     fr = await sess.send(frame(req), n=60)
     replied = bool(fr)
@@ -637,11 +665,24 @@ async def copy_run(rng, tier, root, only=None):
     for sz, woff, length in ((BLOCK, BLOCK, 0), (BLOCK + 9, 2 * BLOCK, 0), (BLOCK, BLOCK - 1, 0), (3 * BLOCK, 5, 0),
                              (BLOCK, BLOCK, 2 ** 64 - 1), (10, 20, 0), (BLOCK, 0, 0)):
         params.append((True, sz, 0, length, woff, 6))
+    params = [p + (None,) for p in params]
+    # every way two handles can denote one file (refused: nothing read, nothing written), and two ways they can
+    # look alike without being the same file (copied normally)
+    for how in ('same_handle', 'two_opens', 'hardlink', 'symlink', 'renamed_after_open', 'unlinked_after_open'):
+        params.append((True, BLOCK, 0, 0, BLOCK, 6, how))
+        params.append((True, BLOCK + 9, 0, 2 ** 64 - 1, 2 * BLOCK, 6, how))
+    for how in ('replaced_after_open', 'equal_names_other_dir'):
+        params.append((False, 2 * BLOCK + 5, 0, 0, BLOCK, 12, how))
+        params.append((False, BLOCK, 0, 0, BLOCK, 12, how))
     if only is not None:
-        params = [tuple(only)]
-    for same, sz, roff, length, woff, cap in params:
-        PROGRESS['item'] = ['copy-data', same, sz, roff, length, woff, cap]
-        reads, written, capped, replied, esc = await copy_observe(root, same, sz, roff, length, woff, cap)
+        params = [tuple(only) + ((None,) if len(only) == 6 else ())]
+    for same, sz, roff, length, woff, cap, how in params:
+        PROGRESS['item'] = ['copy-data', same, sz, roff, length, woff, cap, how]
+        reads, written, capped, replied, esc = await copy_observe(root, same, sz, roff, length, woff, cap, how)
+        stats['how.%s' % (how or ('two_opens' if same else 'distinct'))] = \
+            stats.get('how.%s' % (how or ('two_opens' if same else 'distinct')), 0) + 1
+        if capped:
+            stats.setdefault('capped_how', []).append(how or ('two_opens' if same else 'distinct'))
         if esc:
             bad.append(('copy-data', repr((same, sz, roff, length, woff)), esc))
         if not replied:
